@@ -23,7 +23,11 @@ Fields   == {"ID", "InResponseTo", "Destination", "Version"}
 Variants == { [v |-> "none", field |-> "ID", pos |-> "first"] } \cup
             [v : {"qualified", "casevariant"}, field : Fields, pos : {"first", "last"}] \cup
             [v : {"dupIssuer", "nestedIssuer", "foreignIssuer"}, field : {"Issuer"}, pos : {"first", "last"}]
-Inputs == [kind : {"sso", "logout"}, rootsig : {"unsigned", "signed"}, var : Variants, deflate : BOOLEAN]
+\* before: what the library was handed immediately before, on the same goroutine (a complete other document in a
+\* DEFLATE stream that is never terminated / that continues with a reserved block type, garbage, another acceptable
+\* message, an over-limit stream).  Nothing below depends on it: the library keeps no state between calls.
+Befores == {"none", "unterminated", "badblock", "garbage", "otherok", "bomb"}
+Inputs == [kind : {"sso", "logout"}, rootsig : {"unsigned", "signed"}, var : Variants, deflate : BOOLEAN, before : Befores]
 Cfgs   == [issuerCfg : BOOLEAN]
 
 \* which value the validated decode ends up with for the shadowed field
